@@ -28,7 +28,7 @@ func methodFamily(p *core.Prog, nt *types.Named, root string) []*ssa.Function {
 				return
 			}
 			ci := core.InfoOf(cc)
-			if ci.Static != nil && ci.Static.Signature.Recv() != nil && core.NamedOf(ci.Static.Signature.Recv().Type()) == nt.Obj().Name() && !seen[ci.Static] {
+			if ci.Static != nil && core.RecvName(ci.Static) == nt.Obj().Name() && !seen[ci.Static] {
 				seen[ci.Static] = true
 				out = append(out, ci.Static)
 			}
@@ -1109,11 +1109,11 @@ func c08ServerProbe(c *core.Ctx, nt *types.Named) {
 		if ci.Static == nil || call.Call.IsInvoke() {
 			return
 		}
-		sig := ci.Static.Signature
-		if sig.Recv() != nil || sig.Params().Len() == 0 || core.TypeStr(sig.Params().At(0).Type()) != "io.Reader" {
+		ri := ioParamIdx(ci.Static, "io.Reader")
+		if ri < 0 || ri >= len(call.Call.Args) {
 			return
 		}
-		paths[accessPath(call.Call.Args[0])] = true
+		paths[accessPath(call.Call.Args[ri])] = true
 	})
 	c.Check(len(paths) == 1, tk+".RecvMsg:one-reader", second.Pos(), fmt.Sprintf("every read of the request in RecvMsg uses the same reader %v", keysOf(paths)),
 		fmt.Sprintf("the request is read through different readers %v: what a buffered reader has already pulled in is invisible to the other, so the second-request probe (or a later message) looks at the wrong place", keysOf(paths)))
@@ -1265,6 +1265,13 @@ func accessPath(v ssa.Value) string {
 		case *ssa.Field:
 			st := x.X.Type().Underlying().(*types.Struct)
 			return accessPath(x.X) + "." + core.FieldName(st, x.Field)
+		case *ssa.FieldAddr:
+			// the address of a value field that groups others (s.in.r): part of the path
+			if pt, ok := x.X.Type().Underlying().(*types.Pointer); ok {
+				if st, ok := pt.Elem().Underlying().(*types.Struct); ok {
+					return accessPath(x.X) + "." + core.FieldName(st, x.Field)
+				}
+			}
 		case *ssa.Parameter:
 			return x.Name()
 		}
